@@ -9,7 +9,7 @@
     mathematical comparison of two values of one type). *)
 From Coq Require Import ZArith List Bool Strings.Byte.
 From YV Require Import Base.Wrap Val.Model Val.Proofs Tree.Schema Tree.Editor Tree.XPathLex Tree.When
-  Tree.WhenSpec Tree.XPathLexProofs Tree.WhenProofs.
+  Tree.WhenSpec Tree.XPathLexProofs Tree.WhenProofs Tree.WhenEditProofs.
 Import ListNotations.
 Open Scope Z_scope.
 
@@ -138,6 +138,18 @@ Theorem C16_text_truth : forall kids c p lf o w l r,
   xpredicate kids c (render p lf o w) = XOk r.
 Proof. exact text_truth. Qed.
 Print Assumptions C16_text_truth.
+
+(** the writer: an edit (UpsertFrom at a container-like entry point, choice-free definitions) that brings
+    exactly one conditional leaf writes it if its condition holds on the target and leaves the target
+    untouched if it does not *)
+Theorem C16_edit_conditional_leaf : forall kids src tgt i m ty il dflt w d,
+  nth_error kids i = Some (SLeaf m ty il dflt) -> nm_when m = Some w ->
+  Forall (fun k => sguard k = []) kids ->
+  nth i src None = Some d -> (forall j, j <> i -> nth j src None = None) ->
+  forall holds, xpredicate kids tgt w = XOk holds ->
+  wupsert kids src tgt = XOk (if holds then set_nth i (Some d) tgt else tgt).
+Proof. exact edit_conditional_leaf. Qed.
+Print Assumptions C16_edit_conditional_leaf.
 
 (** ** the listed findings, reproduced on the model (KNOWN_FINDINGS.txt k=1,2,5; k=3,4 are the
     compiler's: the schema is an input here) *)
